@@ -131,6 +131,8 @@ def check(run):
     _r1(run, prog)
     _r2(run, prog)
     _r3(run, prog)
+    from ..cachekey import check_caches
+    check_caches(run, [m for k, m in prog.modules.items() if k.startswith('cherab.core.math') and not k.endswith('#pxd')], 'C13-K')
 
 
 # ------------------------------------------------------------------------------------------ R1
